@@ -150,6 +150,31 @@ void run_c03(const char* type) {
 
     // construction from array<bool,N> reproduces the values (observed via Vector(mask) and via extract<I>)
     mask_unary<V>(type, "ctor_array", pats, [](M m) { return obs<V>(m); }, [](uint64_t a) { return a; });
+    // the array may be embedded in other data: bytes before and after it must not leak into the mask
+    if (begin_cell("C03", type, "ctor_array_neighbours")) {
+        Cell& c = cell();
+        struct Emb { unsigned char before[64]; std::array<bool, V::width> arr; unsigned char after[64]; };
+        static Emb e;
+        for (unsigned fill = 0; fill < 3; ++fill) {
+            std::memset(e.before, fill == 0 ? 0x01 : (fill == 1 ? 0xFF : 0x00), sizeof e.before);
+            std::memset(e.after, fill == 0 ? 0x01 : (fill == 1 ? 0xFF : 0x00), sizeof e.after);
+            uint64_t lim = pats.size() > 20000 ? 20000 : pats.size();
+            for (uint64_t k = 0; k < lim; ++k) {
+                uint64_t a = pats[k * (pats.size() / lim)];
+                e.arr = MB<W>::from(a);
+                uint64_t got = 0, cnt = 0; bool al = false, an = false, eqself = false; volatile bool ok = false;
+                uint32_t cls = mcls(a, full) | (fill << 4);
+                VK_GUARDED(cls, ("a=" + hex(a) + ",fill=" + std::to_string(fill)), { M m(e.arr); got = obs<V>(m); cnt = avel::count(m); al = avel::all(m); an = avel::any(m); eqself = (m == M(MB<W>::from(a))); ok = true; });
+                c.cases++; c.cls_add(cls | 0x100);
+                if (c.cases <= 2) add_sample("mask(array embedded between 0x01/0xFF bytes) pattern " + hex(a));
+                if (!ok) continue;
+                c.lanes += W;
+                if (got != a || cnt != (uint64_t)__builtin_popcountll(a) || al != (a == full) || an != (a != 0) || !eqself)
+                    viol("value", cls, -1, "a=" + hex(a) + ",fill=" + std::to_string(fill), hex(got) + "/count=" + std::to_string(cnt) + "/all=" + std::to_string(al) + "/eq=" + std::to_string(eqself), hex(a));
+            }
+        }
+        end_cell();
+    }
     // construction / assignment from bool
     mask_unary<V>(type, "ctor_bool", {0, 1}, [](M m) { bool b = avel::any(m); return obs<V>(M(b)); }, [full](uint64_t a) { return a ? full : 0; });
     mask_unary<V>(type, "assign_bool", pats, [](M m) { bool b = avel::count(m) & 1; M x = m; x = b; return obs<V>(x); },
